@@ -693,7 +693,16 @@ pub fn all_inputs(plan: &Plan) -> Vec<String> {
 }
 
 pub fn run_batch(plan: &Plan, lexers: &[LexerUnderTest], first_idx: usize, threads: usize) -> BatchReport {
-    let inputs = all_inputs(plan);
+    // targeted replay: a single input and script given through the environment
+    let replay: Option<(String, Vec<u8>)> = std::env::var("VERIF_REPLAY_INPUT").ok().map(|i| {
+        let s = std::env::var("VERIF_REPLAY_SCRIPT").unwrap_or_default();
+        (i, s.split(',').filter(|x| !x.is_empty()).map(|x| x.parse().unwrap()).collect())
+    });
+    let inputs = match &replay {
+        Some((i, _)) => vec![i.clone()],
+        None => all_inputs(plan),
+    };
+    let replay_script = replay.map(|r| r.1);
     let next = AtomicUsize::new(0);
     let agg: Mutex<(Counters, Vec<Violation>, Vec<String>, Vec<Value>)> = Mutex::new((Counters::default(), vec![], vec![], vec![]));
     // silence panic messages of explored lexers (they are observations)
@@ -717,7 +726,11 @@ pub fn run_batch(plan: &Plan, lexers: &[LexerUnderTest], first_idx: usize, threa
                     viols: vec![],
                     drift_sample: None,
                 };
-                if plan.proj == Proj::ClassSweep {
+                if let Some(script) = &replay_script {
+                    for input in &inputs {
+                        ex.execute(input, script);
+                    }
+                } else if plan.proj == Proj::ClassSweep {
                     ex.sweep();
                 } else {
                     for input in &inputs {
